@@ -5,9 +5,6 @@ import MirProofs.Props.C05
 import MirProofs.Props.C05_HK
 import MirProofs.Props.C04_Onset
 import MirProofs.Props.C04_Boundary
-import MirProofs.Props.C07_Onset
-import MirProofs.Props.C07_Beat
-import MirProofs.Props.C07_Boundary
 /-!
   C04 (regenerated) — the event-metric glue AS TRANSLATED from the source on every run (`lean/MirGen/EvGlue.lean`,
   harness/translate/evglue.py): `util._fast_hit_windows`, `util.match_events` (for `distance=None`), `onset.f_measure`,
@@ -353,30 +350,7 @@ theorem tempo_detection_eq_model (r : List Rat) (w : Rat) (e : List Rat) (tol : 
 theorem tempo_detection_default (r : List Rat) (w : Rat) (e : List Rat) :
     Mir.Gen.tempo.detection r w e = Tempo.detection r w e (2 / 25) := tempo_detection_eq_model r w e _
 
-/-! ### the C05 / C04 / C07 headline statements on the translated definitions -/
-
-/-- **C05 (`fast_hit_windows_is_the_tolerance_predicate`) on the code as translated**: the translated
-    `_fast_hit_windows` returns exactly the index pairs with `est_j - w ≤ ref_i ≤ est_j + w`, for every (unsorted,
-    duplicated, empty) reference list, every estimate list and every window (a negative window produces nothing) -/
-theorem gen_fast_hit_windows_spec (ref est : List Rat) (w : Rat) :
-    ∃ hr he, Mir.Gen.util._fast_hit_windows ref est w = .ok (hr, he) ∧ hr.length = he.length ∧
-      ∀ i j, (i, j) ∈ List.zip hr he ↔ ∃ r e, ref[i]? = some r ∧ est[j]? = some e ∧ e - w ≤ r ∧ r ≤ e + w := by
-  refine ⟨_, _, _fast_hit_windows_eq_model ref est w, by simp, fun i j => ?_⟩
-  rw [zip_fst_snd]
-  exact fastHitWindows_spec ref est w i j
-
-/-- **C05 on the translated `match_events`**: it returns a valid one-to-one pairing inside the hit relation, of
-    MAXIMUM size (no valid pairing is larger), and its size is the hit count every event metric divides -/
-theorem gen_match_events_valid_maximum (ref est : List Rat) (w : Rat) :
-    ∃ M, Mir.Gen.util.match_events ref est w = .ok M ∧ ValidMatching (fastHitWindows ref est w) M ∧
-      (∀ M', ValidMatching (fastHitWindows ref est w) M' → M'.length ≤ M.length) ∧
-      M.length = hitCount (withinWindow w) ref est := by
-  refine ⟨_, match_events_eq_model ref est w, ?_, ?_, matchingOf_length ref est w⟩
-  · exact HK.validMatching_perm (HK.hkMatch_buildGraph_valid _) (HK.sortPairs_perm _)
-  · intro M' hM'
-    unfold matchingOf
-    rw [(HK.sortPairs_perm _).length_eq]
-    exact (Mir.C05.HK.hk_on_hit_list _).2.2 M' hM'
+/-! ### the C04 headline statements on the translated definitions (C05: `Props/C05_GenGlue.lean`, C07: `Props/C07_GenGlue.lean`) -/
 
 /-- **C04 (`f_measure_is_matching_score`) on the translated `onset.f_measure`**: on valid non-empty input it returns
     `(F, P, R)` with `P = k / |est|`, `R = k / |ref|`, `k` the size of a maximum matching of `|r - e| ≤ w` -/
@@ -395,21 +369,6 @@ theorem gen_onset_f_measure_empty (ref est : List Rat) (w : Rat) (hv : Onset.val
   rw [onset_f_measure_eq_model]
   exact Mir.C04.Onset.f_measure_empty ref est w hv h
 
-/-- **C07 on the translated `onset.f_measure`**: widening the window never lowers F, P or R -/
-theorem gen_onset_f_measure_window_mono (ref est : List Rat) (w w' : Rat) (hw : w ≤ w') (s s' : Rat × Rat × Rat)
-    (h : Mir.Gen.onset.f_measure ref est w = .ok s) (h' : Mir.Gen.onset.f_measure ref est w' = .ok s') :
-    s.1 ≤ s'.1 ∧ s.2.1 ≤ s'.2.1 ∧ s.2.2 ≤ s'.2.2 := by
-  rw [onset_f_measure_eq_model] at h h'
-  exact Mir.C07.Onset.f_measure_window_mono ref est w w' hw s s' h h'
-
-/-- **C07 on the translated `beat.f_measure`**: widening the threshold never lowers the F-measure -/
-theorem gen_beat_f_measure_window_mono (ref est : List Rat) (thr thr' v : Rat) (h : thr ≤ thr')
-    (hv : Mir.Gen.beat.f_measure ref est thr = .ok v) :
-    ∃ v', Mir.Gen.beat.f_measure ref est thr' = .ok v' ∧ v ≤ v' := by
-  rw [beat_f_measure_eq_model] at hv
-  rw [beat_f_measure_eq_model]
-  exact Mir.C07.Beat.f_measure_window_mono ref est thr thr' v h hv
-
 /-- **C04 (`detection_is_matching_score`) on the translated `segment.detection`** -/
 theorem gen_detection_is_matching_score (ref est : List (Rat × Rat)) (w beta : Rat) (trim : Bool)
     (hv : Boundary.validateBoundary ref est trim = .ok ()) (hr : Boundary.boundaries ref trim ≠ [])
@@ -423,26 +382,7 @@ theorem gen_detection_is_matching_score (ref est : List (Rat × Rat)) (w beta : 
   obtain ⟨k, hk, _, h⟩ := Mir.C04.Boundary.detection_is_matching_score ref est w beta trim hv hr he
   exact ⟨k, hk, h⟩
 
-/-- **C07 on the translated `segment.detection`**: widening the window never lowers P, R or F -/
-theorem gen_detection_window_mono (ref est : List (Rat × Rat)) (w w' beta : Rat) (trim : Bool) (hw : w ≤ w')
-    (s s' : Rat × Rat × Rat) (h : Mir.Gen.segment.detection ref est w beta trim = .ok s)
-    (h' : Mir.Gen.segment.detection ref est w' beta trim = .ok s') :
-    s.1 ≤ s'.1 ∧ s.2.1 ≤ s'.2.1 ∧ s.2.2 ≤ s'.2.2 := by
-  rw [detection_eq_model] at h h'
-  exact Mir.C07.Boundary.detection_window_mono ref est w w' beta trim hw s s' h h'
-
 /-! ### non-vacuity -/
-
-/-- unsorted reference with a duplicated value: both copies of `1` hit the estimate `1`, `3` does not -/
-example : ∃ hr he, Mir.Gen.util._fast_hit_windows [3, 1, 1, 2] [1, 5 / 2] (1 / 2) = .ok (hr, he) ∧
-    (1, 0) ∈ List.zip hr he ∧ (2, 0) ∈ List.zip hr he ∧ (0, 0) ∉ List.zip hr he := by
-  obtain ⟨hr, he, h, _, hs⟩ := gen_fast_hit_windows_spec [3, 1, 1, 2] [1, 5 / 2] (1 / 2)
-  refine ⟨hr, he, h, (hs 1 0).2 ⟨1, 1, rfl, rfl, by norm_num, by norm_num⟩,
-    (hs 2 0).2 ⟨1, 1, rfl, rfl, by norm_num, by norm_num⟩, fun hc => ?_⟩
-  obtain ⟨r, e, h1, h2, h3, h4⟩ := (hs 0 0).1 hc
-  simp at h1 h2
-  subst h1 h2
-  norm_num at h4
 
 /-- two onsets, one estimate inside the window of the first: F = 2/3, P = 1, R = 1/2 -/
 example : ∃ k : Nat, Mir.Gen.onset.f_measure [1, 2] [1] (1 / 20) =
